@@ -312,8 +312,8 @@ def rewrite_rules(ctx, te, rule="C11.rewrite"):
 
     f = ctx.fn("logic:__naive_combination")
     F = Facts(f)
-    ok = F.assigns("crossing") == ["[list(tup) for tup in list(product(__get_list_for_crossing(clauses[0]), __get_list_for_crossing(clauses[1])))]"] and \
-        F.assigns("combination") == ["And(list(map(lambda l: Or(__flatten_clause_list(l, Or)), [list(tup) for tup in list(product(__get_list_for_crossing(clauses[0]), __get_list_for_crossing(clauses[1])))])))"]
+    ok = F.assigns("crossing") == ["[list(_b0) for _b0 in list(product(__get_list_for_crossing(clauses[0]), __get_list_for_crossing(clauses[1])))]"] and \
+        F.assigns("combination") == ["And([Or(__flatten_clause_list(_b0, Or)) for _b0 in [list(_b0) for _b0 in list(product(__get_list_for_crossing(clauses[0]), __get_list_for_crossing(clauses[1])))]])"]
     ctx.check(ok, rule, f, "naive product", "A | B with A, B conjunctions becomes the conjunction of all pairwise disjunctions",
               "__naive_combination changed: %s" % F.assigns("combination"))
     f = ctx.fn("logic:__distribute_ors_naive")
